@@ -257,6 +257,98 @@ def rule_jbrd_accumulate(ctx):
         ctx.ok(rid, "need-more-keeps-bytes", "every `need more data` return has appended the offered bytes", nontrivial=True, fn=f)
 
 
+def rule_preview_len(ctx):
+    """try_init waits for the whole preview frame, measured from where its header ended"""
+    rid = "R-INIT-PREVIEW-LEN"
+    ctx.rule(rid, "UninitializedJxlImage::try_init skips a preview frame by draining `position after the preview frame's header and TOC + "
+                  "the TOC's total size` bytes.  The test that answers `need more data` until that many bytes are buffered must compare "
+                  "the buffer length with the same quantity: the other side of the comparison is computed from a "
+                  "Bitstream::num_read_bits() call made AFTER the preview Frame::parse (dominated by it) and from "
+                  "Toc::total_byte_size().  A position taken before the frame header was parsed, or a size relative to the frame start, "
+                  "is short by the header in front: try_init then drains past the end of the buffer (panic) when a chunk ends inside "
+                  "the last bytes of the preview frame")
+    ox = ctx.prog.crate("jxl_oxide")
+    f = ox.fns.get("jxl_oxide::UninitializedJxlImage::try_init")
+    if f is None:
+        ctx.anchor_missing(rid, "jxl_oxide::UninitializedJxlImage::try_init")
+        return
+    def parse_calls(g):
+        return [(b, t) for b, t in g.calls() if callee(t) and "jxl_frame::Frame as " in (callee(t).get("res") or callee(t)["fn"])
+                and (callee(t).get("res") or callee(t)["fn"]).endswith("::parse")]
+    if not parse_calls(f):
+        # the preview skip may live in a private helper of try_init
+        for b, t in f.calls():
+            c = callee(t)
+            h = ox.fns.get(c.get("res") or c["fn"]) or ox.fns.get(c["fn"]) if c else None
+            if h is not None and h.kind != "Promoted" and parse_calls(h):
+                f = h
+                break
+    ctx.seen(f)
+    defs = Defs(f)
+    parse = parse_calls(f)
+    if len(parse) != 1 or parse[0][1][4] is None:
+        ctx.anchor_missing(rid, "the preview Frame::parse call in try_init (found %d)" % len(parse))
+        return
+    after = parse[0][1][4]
+
+    def slice_calls(l, seen=None, depth=0):
+        """names and blocks of the calls in the backward slice of local l (through arithmetic, casts, copies, `?`)"""
+        seen = seen if seen is not None else set()
+        out = []
+        if l is None or l in seen or depth > 14:
+            return out
+        seen.add(l)
+        for d in defs.of(l):
+            if f.is_cleanup(d[0]):
+                continue
+            if d[2] == "call":
+                c = callee(d[3])
+                nm = (c.get("res") or c["fn"]) if c else ""
+                out.append((nm, d[0]))
+                if nm.split("::")[-1] in ("branch", "from", "into", "unwrap", "min", "max", "saturating_add", "checked_add", "wrapping_add"):
+                    for a in d[3][2]:
+                        out += slice_calls(op_local(a), seen, depth + 1)
+                continue
+            if d[2] != "assign":
+                continue
+            rv = d[3][2]
+            ops = [rv[1]] if rv[0] == "use" else ([rv[2]] if rv[0] in ("cast", "un") else ([rv[2], rv[3]] if rv[0] == "bin" else []))
+            for o in ops:
+                p = op_place(o)
+                if p is not None:
+                    out += slice_calls(p[0], seen, depth + 1)
+        return out
+
+    found = good = 0
+    for b, blk in enumerate(f.blocks):
+        if blk[2] or not f.dominates(after, b):
+            continue
+        for st in blk[0]:
+            if st[0] != "=" or st[2][0] != "bin" or st[2][1] not in ("Lt", "Le", "Gt", "Ge"):
+                continue
+            sides = [op_local(st[2][2]), op_local(st[2][3])]
+            sl = [slice_calls(x) for x in sides]
+            # the side that is the end of the preview frame: it mentions the TOC's size (the other side is the buffered length,
+            # read from the buffer here or handed to a helper as a parameter)
+            for other in sl:
+                if not any(nm.endswith("total_byte_size") or nm.endswith("Toc::bookmark") for nm, _ in other):
+                    continue
+                found += 1
+                pos_ok = any(nm.endswith("num_read_bits") and f.dominates(after, bb) for nm, bb in other)
+                size_ok = any(nm.endswith("total_byte_size") for nm, _ in other)
+                if pos_ok and size_ok:
+                    good += 1
+    ctx.count(rid + ".length-tests", found)
+    if good >= 1:
+        ctx.ok(rid, "preview-length-test", "the buffer length is compared with (position after the preview header) + (TOC size)", nontrivial=True, fn=f)
+    elif found == 0:
+        ctx.bad(rid, "preview-length-test|missing", "try_init no longer compares the buffered length with the end of the preview frame before draining it", fn=f)
+    else:
+        ctx.bad(rid, "preview-length-test|wrong-base", "the test that waits for the whole preview frame does not use the position after the preview frame's "
+                "header (a num_read_bits() call made after Frame::parse) plus Toc::total_byte_size(): it is short by what precedes, and the "
+                "drain that follows runs past the end of the buffer", fn=f)
+
+
 def main(pid, tier, repo=None):
     ctx = Ctx(pid, tier, configs=("workspace",), repo=repo)
     rule_feed_consumed(ctx)
@@ -264,6 +356,7 @@ def main(pid, tier, repo=None):
     rule_refeed(ctx)
     rule_init_offsets(ctx)
     rule_jbrd_accumulate(ctx)
+    rule_preview_len(ctx)
     bs = ctx.prog.crate("jxl_bitstream")
     c10.rule_consumed(ctx, bs)
     c10.rule_retry(ctx, bs)
